@@ -11,6 +11,7 @@ from desper.logic.world import World
 PROPERTY = 'C02'
 
 LOG = []        # (instance, event, args...) in real delivery order
+INSIDE = []     # observations made inside on_add: (instance, is_handler(self), still attached to that entity)
 
 
 def make_classes(ns):
@@ -19,6 +20,7 @@ def make_classes(ns):
     @desper.event_handler('on_add', 'on_remove', 'probe')
     class Hd:
         def on_add(self, entity, world):
+            INSIDE.append((self, world.is_handler(self), any(c is self for c in world.get_components(entity))))
             LOG.append((self, 'on_add', entity, world))
 
         def on_remove(self, entity, world):
@@ -39,6 +41,7 @@ def make_classes(ns):
 
         def on_add(self, entity, world):
             super().on_add(entity, world)
+            INSIDE.append((self, world.is_handler(self), any(c is self for c in world.get_components(entity))))
             LOG.append((self, 'on_add', entity, world))
 
         def probe(self):
@@ -148,6 +151,14 @@ def oracle(sp, w, m, when, consumed):
         sp.check(len(LOG) == consumed, 'callback-while-disabled',
                  '%s: callbacks ran while dispatching is disabled {%s}' % (
                      when, ', '.join(describe(t) for t in LOG[consumed:])))
+    # inside on_add: a component that is (still) attached to that entity is already registered as a listener
+    for inst, was_handler, was_attached in INSIDE:
+        if was_attached:
+            sp.check(was_handler, 'listener-while-attached',
+                     '%s: inside on_add, %s#%x is attached but world.is_handler(self) is False' % (
+                         when, type(inst).__name__, id(inst) & 0xfff))
+            sp.cover('observed-inside-on_add')
+    del INSIDE[:]
     att = m.attached()
     for inst in m.instances:
         if hasattr(inst, '__events__'):
@@ -165,6 +176,7 @@ def oracle(sp, w, m, when, consumed):
 
 def h_life(sp, L=3, ids=(1, 2), classes=5, create_sets=8, auto=True, reuse=True, flavour='plain'):
     del LOG[:]
+    del INSIDE[:]
     w = World()
     m = Model(w)
     all_classes, all_sets = FLAVOURS[flavour]
@@ -339,7 +351,7 @@ HARNESSES = {
                              'release', 'probe', 're-attach', 'create-replaces', 'attach-disabled',
                              'detach-disabled', 'release-after-clear'],
                  required=['replace', 'remove', 'delete-immediate', 'clear-nonempty', 'release', 'probe',
-                           'attach-disabled']),
+                           'attach-disabled', 'observed-inside-on_add']),
 }
 TIERS = {
     'quick': [('life', dict(L=3)),
